@@ -1779,6 +1779,7 @@ KNOWN_HERBRAND = {
     "np.diff", "np.floor", "np.full", "np.isfinite", "np.log10", "np.outer", "np.ravel_multi_index", "np.repeat",
     "np.unravel_index", "numpyro.distributions.Gamma", "numpyro.distributions.Multinomial",
     "numpyro.distributions.NegativeBinomialProbs", "scipy.stats.binom.pmf", "scipy.stats.poisson.pmf",
+    "np.isclose", "np.allclose", "math.isclose",  # approximate comparisons are NOT the exact comparisons the documents state
     "np.tile", "np.indices", "np.cumsum", "np.sort", "np.flip", "np.ceil", "np.round", "np.sqrt", "np.sign",
     "itertools.product", "np.ones", "np.ones_like", "np.full_like", "np.eye", "np.linspace", "np.meshgrid", "np.swapaxes",
     "np.transpose", "np.expand_dims", "np.broadcast_to", "np.cumprod", "np.isnan", "np.nan_to_num", "np.int32", "np.int64",
